@@ -19,6 +19,7 @@ import (
 	"encoding/json"
 	"fmt"
 	"os"
+	"path/filepath"
 	"runtime"
 	"sort"
 	"sync"
@@ -53,6 +54,8 @@ type call struct {
 	Pw       string `json:"pw,omitempty"`  // unlock: password used; chpass: old password
 	New      string `json:"new,omitempty"` // chpass
 	Err      string `json:"err,omitempty"`
+	Guarded  bool   `json:"guarded,omitempty"` // must fail while locked (dump sign getseed and the guarded rows of requestTable)
+	Leak     string `json:"leak,omitempty"`    // a stored secret found in the reply
 }
 
 type sample struct {
@@ -220,8 +223,8 @@ func (h *history) analyse() (fs []finding) {
 		switch {
 		case c.Kind == "unlock" && c.OK && !h.plausible(c.Pw, c.Inv, c.Res):
 			add("other", fmt.Sprintf("unlock [%d,%d] succeeded with %q which was not the wallet's password then", c.Inv, c.Res, c.Pw), 1)
-		case (c.Kind == "dump" || c.Kind == "sign" || c.Kind == "getseed") && c.OK && !h.justified(c.Inv, c.Res, -1, -1, false):
-			what := fmt.Sprintf("%s [%d,%d] returned a secret / signed with no open unlock window", c.Kind, c.Inv, c.Res)
+		case c.OK && (c.Guarded || c.Leak != "") && !h.justified(c.Inv, c.Res, -1, -1, false):
+			what := fmt.Sprintf("%s [%d,%d] succeeded with no open unlock window (guarded=%v, stored secret in the reply: %q)", c.Kind, c.Inv, c.Res, c.Guarded, c.Leak)
 			if h.justified(c.Inv, c.Res, -1, -1, true) {
 				add(idLostLock, what+"; the lock that closed the window was concurrent with a ProcWalletSetPasswd call and did not last", 1)
 			} else {
@@ -240,12 +243,16 @@ type world struct {
 	mu    sync.Mutex
 	cur   string // the password the harness believes current (updated after every successful change)
 	addrs []string
+
+	secrets  []secret // everything the wallet stores and must not hand out while locked (seed, keys)
+	dumpFile string   // a key file written during set-up, for ImportPrivkeysFile
 }
 
 func (w *world) believed() string { w.mu.Lock(); defer w.mu.Unlock(); return w.cur }
 
-// newWorld: wallet with a seed and two imported keys, left locked and "warm" (password held in memory).
-func newWorld() *world {
+// newWorld: wallet with a seed, two imported keys, a dumped key file and (airDrop) the air-drop account of
+// NewAccountByIndex, left locked and "warm" (password held in memory).
+func newWorld(airDrop bool) *world {
 	w := &world{n: newNode("secp256k1"), cur: pw0}
 	seed, err := w.n.w.GenSeed(0) // content irrelevant to the property; not part of the case
 	if err != nil {
@@ -265,6 +272,17 @@ func newWorld() *world {
 			lib.Inconclusive("harness: import: %v", err)
 		}
 		w.addrs = append(w.addrs, acc.Acc.Addr)
+		w.addSecret(fmt.Sprintf("key of acc%d", i), k)
+	}
+	w.addSecret("seed", []byte(seed.Seed))
+	w.dumpFile = filepath.Join(w.n.dir, "setup.keys")
+	if err := w.n.w.ProcDumpPrivkeysFile(w.dumpFile, filePass); err != nil {
+		lib.Inconclusive("harness: dump key file: %v", err)
+	}
+	if airDrop {
+		if err, _ := w.exec("NewAccountByIndex", 0); err != nil {
+			lib.Inconclusive("harness: NewAccountByIndex: %v", err)
+		}
 	}
 	if err := w.n.w.ProcWalletLock(); err != nil {
 		lib.Inconclusive("harness: initial lock: %v", err)
@@ -276,6 +294,7 @@ type op struct {
 	Kind    string `json:"k"` // unlock unlockWrong unlockStale lock chpass chpassWrong status dump sign getseed
 	Timeout int64  `json:"t,omitempty"`
 	Acc     int    `json:"a,omitempty"`
+	Fn      string `json:"fn,omitempty"` // Kind "req": a row of requestTable
 }
 
 // do performs one request (directly on the exported handler, or through the message queue as RPC does) and
@@ -344,7 +363,7 @@ func (w *world) do(g, i int, o op, queue bool) (*call, *sample) {
 			return wl.ProcWalletSetPasswd(req)
 		}
 	case "dump":
-		c.Kind = "dump"
+		c.Kind, c.Guarded = "dump", true
 		addr := w.addrs[o.Acc%len(w.addrs)]
 		run = func() error {
 			if queue {
@@ -358,7 +377,7 @@ func (w *world) do(g, i int, o op, queue bool) (*call, *sample) {
 			return err
 		}
 	case "sign":
-		c.Kind = "sign"
+		c.Kind, c.Guarded = "sign", true
 		req := &types.ReqSignRawTx{Addr: w.addrs[o.Acc%len(w.addrs)], TxHex: unsignedTx, Expire: "0"}
 		run = func() error {
 			if queue {
@@ -369,13 +388,19 @@ func (w *world) do(g, i int, o op, queue bool) (*call, *sample) {
 			return err
 		}
 	case "getseed":
-		c.Kind, c.Pw = "getseed", w.believed()
+		c.Kind, c.Pw, c.Guarded = "getseed", w.believed(), true
 		run = func() error {
 			if queue {
 				_, err := exec("GetSeed", &types.GetSeedByPw{Passwd: c.Pw})
 				return err
 			}
 			_, err := wl.GetSeed(c.Pw)
+			return err
+		}
+	case "req": // any other registered request, always through the queue
+		c.Kind, c.Guarded = "req:"+o.Fn, requestByName(o.Fn).Guarded
+		run = func() (err error) {
+			err, c.Leak = w.exec(o.Fn, (g+10)*1000+i)
 			return err
 		}
 	default:
@@ -423,7 +448,7 @@ const watchdog = 120 * time.Second
 
 // execute runs the case on a fresh wallet and returns what was recorded.
 func execute(c runCase) *history {
-	w := newWorld()
+	w := newWorld(true)
 	defer w.n.destroy()
 	h := &history{}
 	switch c.Start {
@@ -529,7 +554,18 @@ func execute(c runCase) *history {
 
 // ---------------------------------------------------------------- generated search
 
-var kinds = []string{"unlock", "unlockWrong", "unlockStale", "lock", "chpass", "chpassWrong", "status", "dump", "sign", "getseed"}
+var kinds = []string{"unlock", "unlockWrong", "unlockStale", "lock", "chpass", "chpassWrong", "status", "dump", "sign", "getseed", "req"}
+
+// concurrentRequests: the rows of requestTable used in the concurrent runs: all but the two that derive a key from a
+// seed under the wallet mutex (about 50 ms each; the sequential histories cover them).
+var concurrentRequests = func() (out []string) {
+	for _, r := range requestTable {
+		if r.Fn != "NewAccount" && r.Fn != "NewRandAccount" {
+			out = append(out, r.Fn)
+		}
+	}
+	return
+}()
 
 func genCase(t *rapid.T) runCase {
 	c := runCase{Start: rapid.SampledFrom([]string{"cold", "cold", "warm", "unlocked"}).Draw(t, "start"),
@@ -557,6 +593,8 @@ func genCase(t *rapid.T) runCase {
 				s[i].Timeout = rapid.SampledFrom([]int64{0, 0, 1, 2}).Draw(t, "timeout")
 			case "dump", "sign":
 				s[i].Acc = rapid.IntRange(0, 1).Draw(t, "acc")
+			case "req":
+				s[i].Fn = rapid.SampledFrom(concurrentRequests).Draw(t, "fn")
 			}
 		}
 		c.Scripts = append(c.Scripts, s)
@@ -660,7 +698,7 @@ func TestReplayCase(t *testing.T) {
 // request is ever issued, so any "unlocked" reading violates the property.  Schedule dependent: silent if not hit.
 func TestKnown_SetPasswdTransientUnlock(t *testing.T) {
 	defer lib.Flush()
-	w := newWorld()
+	w := newWorld(true)
 	defer w.n.destroy()
 	w.n.restart()
 	var stop atomic.Bool
@@ -710,7 +748,7 @@ func TestKnown_SetPasswdTransientUnlock(t *testing.T) {
 // in ProcWalletSetPasswd, about one hit per 30 000 rounds here): silent if never hit.
 func TestKnown_SetPasswdLostLock(t *testing.T) {
 	defer lib.Flush()
-	w := newWorld()
+	w := newWorld(true)
 	defer w.n.destroy()
 	var stop atomic.Bool
 	var spin atomic.Uint64
@@ -761,7 +799,7 @@ func TestRegress_OracleSelfTest(t *testing.T) {
 	S := func(inv, res uint64, ok bool, old, nw string) call {
 		return call{Kind: "chpass", Inv: inv, Res: res, OK: ok, Pw: old, New: nw}
 	}
-	D := func(inv, res uint64) call { return call{Kind: "dump", Inv: inv, Res: res, OK: true} }
+	D := func(inv, res uint64) call { return call{Kind: "dump", Inv: inv, Res: res, OK: true, Guarded: true} }
 	o := func(a, b uint64, unlocked bool) sample { return sample{A: a, B: b, Unlocked: unlocked, N: 1, Via: "t"} }
 	for _, tc := range []struct {
 		name  string
